@@ -68,6 +68,9 @@ def run(ctx):
         fixtures(ctx)
         from . import c02_emul
         c02_emul.run(ctx, rng, model)
+        # K: virtual files beyond 4 GiB / 65535 lines / 2^31 bytes (hugecheck): every returned element vs the model
+        from .. import hugecheck
+        hugecheck.run(ctx, model, gen.rng_for(ctx.seed, 'c02-huge'), wide=False)
     finally:
         model.close()
 
